@@ -864,6 +864,27 @@ pub fn c04(g: &mut Gen) {
             g.push(format!("net {} learn 5 {} 0 2 3 0", net.token(), s), Tol::Loose, &format!("one-repetition-block/{}/{}", o.kind(), if spatial { "spatial" } else { "flat" }), true);
         }
     }
+    // … and blocks of SEVERAL repetitions whose inner layer carries dropout (dense, convolution, deconvolution): training
+    // mode reaches every repetition, so every repetition draws its mask
+    for (bi, loops) in [(0usize, 2usize), (1, 3), (2, 2), (0, 3), (1, 2), (2, 3)] {
+        let cb = ArchCfg { wscale: 0.5, acts: vec!["tanh", "sigmoid"], dropout: false, ..ArchCfg::small() };
+        let (input, inner, count) = match bi {
+            0 => { let mut d = dense_spec(g, &cb, 4, 4, "tanh", true); if let InnerSpec::Dense { dropout, .. } = &mut d { *dropout = Some(0.5); } (Shape::Single(4), d, 4) }
+            1 => (Shape::Triple(1, 3, 3), InnerSpec::Conv { filters: 1, act: "tanh".into(), k: (3, 3), s: (1, 1), p: (1, 1), d: (1, 1), dropout: Some(0.5), ks: vec![weights(g, &Shape::Triple(1, 3, 3), 0.5)] }, 9),
+            _ => (Shape::Triple(1, 3, 3), InnerSpec::Deconv { filters: 1, act: "tanh".into(), k: (3, 3), s: (1, 1), p: (1, 1), dropout: Some(0.5), ks: vec![weights(g, &Shape::Triple(1, 3, 3), 0.5)] }, 9),
+        };
+        let mut builds = Vec::new();
+        if bi == 0 && loops == 3 { builds.push(Build::Layer(dense_spec(g, &cb, 4, 4, "tanh", true))); }
+        builds.push(Build::Feedback { inner: vec![inner], loops, inskips: false, outskips: false, acc: "mean".into() });
+        builds.push(Build::Layer(dense_spec(g, &cb, count, 2, "linear", true)));
+        let net = NetSpec { input, builds, skipacc: "add".into(), loopacc: "mean".into(), opt: Some(opts[(bi + loops) % opts.len()].clone()), obj: "mse".into(), clamp: None };
+        let s = samples_tok(g, &net, &Sh::Flat(2), 5);
+        g.push(format!("net {} learn 5 {} 0 2 3 0", net.token(), s), Tol::Loose, &format!("block-with-dropout/L{}/{}", loops, ["dense", "conv", "deconv"][bi]), true);
+        if loops == 2 {
+            let v = samples_tok(g, &net, &Sh::Flat(2), 2);
+            g.push(format!("net {} learn 5 {} 1 2 {} 5 2 3 0", net.token(), s, v), Tol::Loose, &format!("block-with-dropout-and-validation/{}", ["dense", "conv", "deconv"][bi]), true);
+        }
+    }
     // every bias on/off pattern of a three-layer MLP (the per-layer bias gradients are summed over the batch
     // layer by layer; a layer without bias sits between layers with one), B = 2 and B > N
     for pat in 0..8u32 {
@@ -1019,6 +1040,43 @@ pub fn c11(g: &mut Gen) {
                     skipacc: "add".into(), loopacc: "mean".into(), opt: None, obj: "mse".into(), clamp: None };
                 let x = input_for(g, &net.input);
                 g.push(format!("net {} predict {}", net.token(), qt(&x)), Tol::Tight, &format!("rectangular-block/{}x{}/L{}", h, w, loops), true);
+            }
+        }
+    }
+    // maps of a single value (C x 1 x 1, also one channel) through a spatial block, alone and with a dense layer behind it
+    // (flattened like any other map)
+    for c in [1usize, 2, 3] {
+        for (loops, i, o, acc) in [(1usize, false, false, "add"), (2, false, true, "mean"), (3, true, true, "add"), (2, true, false, "mul")] {
+            for dense_after in [true, false] {
+                for kind in 0..2 {
+                    let inner = if kind == 0 { InnerSpec::Conv { filters: c, act: "tanh".into(), k: (1, 1), s: (1, 1), p: (0, 0), d: (1, 1), dropout: None, ks: (0..c).map(|_| weights(g, &Shape::Triple(c, 1, 1), 0.6)).collect() } }
+                        else { InnerSpec::Deconv { filters: c, act: "tanh".into(), k: (3, 3), s: (1, 1), p: (1, 1), dropout: None, ks: (0..c).map(|_| weights(g, &Shape::Triple(c, 3, 3), 0.6)).collect() } };
+                    let mut builds = vec![Build::Feedback { inner: vec![inner], loops, inskips: i, outskips: o, acc: acc.into() }];
+                    if dense_after { builds.push(Build::Layer(dense_spec(g, &cfg, c, 2, "linear", true))); }
+                    let net = NetSpec { input: Shape::Triple(c, 1, 1), builds, skipacc: "add".into(), loopacc: "mean".into(), opt: None, obj: "mse".into(), clamp: None };
+                    let x = input_for(g, &net.input);
+                    g.push(format!("net {} predict {}", net.token(), qt(&x)), Tol::Tight, &format!("single-value-maps/c{}/L{}/{}", c, loops, if dense_after { "dense-follows" } else { "alone" }), true);
+                    if loops == 2 && kind == 0 { g.push(format!("net {} shapes", net.token()), Tol::Exact, "single-value-maps/shapes", true); }
+                }
+            }
+        }
+    }
+    // every activation function inside a block of several repetitions (each repetition applies the SAME function: leaky
+    // ReLU with its slope on negative pre-activations, soft-max, …), flat and spatial
+    for act in ["leaky", "relu", "sigmoid", "tanh", "linear", "softmax"] {
+        for loops in [2usize, 3] {
+            let w = Tensor::double(vec![vec![-0.7, 0.2, 0.1], vec![0.3, -0.9, 0.2], vec![0.1, 0.4, -0.8]]);
+            let flat = InnerSpec::Dense { out: 3, act: act.into(), bias: true, dropout: None, w, b: Some(Tensor::single(vec![-0.2, 0.1, -0.3])) };
+            let netf = NetSpec { input: Shape::Single(3), builds: vec![Build::Feedback { inner: vec![flat], loops, inskips: false, outskips: loops == 3, acc: "add".into() }],
+                skipacc: "add".into(), loopacc: "mean".into(), opt: None, obj: "mse".into(), clamp: None };
+            g.push(format!("net {} predict {}", netf.token(), qt(&Tensor::single(vec![1.5, 2.0, 0.5]))), Tol::Tight, &format!("every-activation/flat/{}/L{}", act, loops), true);
+            g.push(format!("net {} predict {}", netf.token(), qt(&Tensor::single(vec![-1.5, -2.0, -0.5]))), Tol::Tight, &format!("every-activation/flat/{}/L{}", act, loops), true);
+            if act != "softmax" {
+                let k = Tensor::triple(vec![vec![vec![0.0, -0.3, 0.0], vec![0.2, -0.9, 0.1], vec![0.0, 0.4, 0.0]]]);
+                let c = InnerSpec::Conv { filters: 1, act: act.into(), k: (3, 3), s: (1, 1), p: (1, 1), d: (1, 1), dropout: None, ks: vec![k] };
+                let nets = NetSpec { input: Shape::Triple(1, 2, 3), builds: vec![Build::Feedback { inner: vec![c], loops, inskips: loops == 3, outskips: false, acc: "mean".into() }],
+                    skipacc: "add".into(), loopacc: "mean".into(), opt: None, obj: "mse".into(), clamp: None };
+                g.push(format!("net {} predict {}", nets.token(), qt(&Tensor::triple(vec![vec![vec![1.0, 2.0, 0.5], vec![1.5, 0.25, 3.0]]]))), Tol::Tight, &format!("every-activation/spatial/{}/L{}", act, loops), true);
             }
         }
     }
@@ -1202,6 +1260,19 @@ pub fn c10(g: &mut Gen) {
             let mut netv = NetSpec { input: Shape::Triple(1, 3, 4), builds: vec![Build::Feedback { inner: vec![v1, v2], loops, inskips: false, outskips: false, acc: ["add", "mean"][loops % 2].into() }],
                 skipacc: "add".into(), loopacc: "mean".into(), opt: None, obj: "mse".into(), clamp: None };
             netv.opt = Some(opts[(loops + 2) % opts.len()].clone());
+            g.push(format!("net {} shapes", netw.token()), Tol::Exact, &format!("parameters/widening-conv/L{}", loops), true);
+            g.push(format!("net {} shapes", netv.token()), Tol::Exact, &format!("parameters/widening-deconv/L{}", loops), true);
+            // … a convolution that widens to f maps and a deconvolution that narrows back to one (filters != channels read)
+            for f in [2usize, 3] {
+                let m1 = InnerSpec::Conv { filters: f, act: "tanh".into(), k: (3, 3), s: (1, 1), p: (1, 1), d: (1, 1), dropout: None, ks: (0..f).map(|_| weights(g, &Shape::Triple(1, 3, 3), 0.4)).collect() };
+                let m2 = InnerSpec::Deconv { filters: 1, act: "tanh".into(), k: (3, 3), s: (1, 1), p: (1, 1), dropout: None, ks: vec![weights(g, &Shape::Triple(f, 3, 3), 0.4)] };
+                let mut netm = NetSpec { input: Shape::Triple(1, 4, 4), builds: vec![Build::Feedback { inner: vec![m1, m2], loops, inskips: false, outskips: false, acc: "mean".into() },
+                    Build::Layer(dense_spec(g, &cfg, 16, 2, "tanh", true))], skipacc: "add".into(), loopacc: "mean".into(), opt: None, obj: "mse".into(), clamp: None };
+                g.push(format!("net {} shapes", netm.token()), Tol::Exact, &format!("parameters/conv-then-deconv/f{}/L{}", f, loops), true);
+                netm.opt = Some(opts[(loops + f) % opts.len()].clone());
+                let sm = samples_tok(g, &netm, &Sh::Flat(2), 2);
+                g.push(format!("net {} learn 2 {} 0 2 2 0", netm.token(), sm), Tol::Loose, &format!("learn/conv-then-deconv/f{}/L{}", f, loops), true);
+            }
             let sv = samples_tok(g, &netv, &Sh::Vol(1, 3, 4), 2);
             g.push(format!("net {} learn 2 {} 0 2 2 0", netv.token(), sv), Tol::Loose, &format!("learn/widening-deconv/L{}", loops), true);
         }
